@@ -25,7 +25,8 @@ EXTENDS Integers, Sequences, FiniteSets, TLC, Json
 
 CONSTANTS Depth,       \* number of writes per history
           MaxOpNs,     \* choices for maxopn
-          Families     \* op families enabled in this run (subset of AllFamilies)
+          Families,    \* op families enabled in this run (subset of AllFamilies)
+          NoNoops      \* TRUE: every write of a history changes the state
 
 AllFamilies == {"bit", "time", "clear", "value", "keyed", "roaring", "import", "importkeyed",
                 "importvalue", "rowop"}
@@ -213,6 +214,7 @@ Next ==
        \/ "importvalue" \in Families /\ \E vs \in ValueSets : ImportValue(vs)
        \/ "rowop" \in Families /\ \E s \in Rows, r \in Rows : Store(s, r)
        \/ "rowop" \in Families /\ \E fld \in {"f", "m"}, r \in Rows : ClearRow(fld, r)
+    /\ NoNoops => hist'[Len(hist')].post # State
 
 Spec == Init /\ [][Next]_vars
 
